@@ -164,6 +164,10 @@ func parse(c Case) (o outcome) {
 			}
 		case "listener":
 			for _, s := range b.cli.ListenList {
+				if s == nil || reflect.ValueOf(s).IsNil() {
+					o.types = append(o.types, "<nil listener>")
+					continue
+				}
 				o.types = append(o.types, reflect.TypeOf(s).String())
 			}
 		}
@@ -292,6 +296,24 @@ func evalParse(r *mc.Run, c Case) {
 		fail("panic", "parsing panicked: "+o.panic)
 		return
 	}
+	if c.Pos == "listener" && c.Form == "json" {
+		// undocumented input form: a configuration error, or exactly one listener of the documented
+		// kind; never a crash, an entry that is no listener, or another transport
+		if o.err != "" {
+			return
+		}
+		if c.Struct == "empty-list" {
+			return
+		}
+		if len(o.types) == 1 && o.types[0] == "<nil listener>" {
+			fail("accepted-without-a-listener", "a JSON object given as a listener specification was accepted, but the entry added to the listener list is nil (the client crashes when it starts its listeners)")
+			return
+		}
+		if c.Struct != "" || !documented || len(o.types) != 1 || o.types[0] != exp.typ {
+			fail("accepts-malformed", fmt.Sprintf("a JSON object given as a listener specification was accepted as %v", o.types))
+		}
+		return
+	}
 	if c.Struct != "" && c.Struct != "with-forward" {
 		// structural neighbours: must be an error or (empty list) an empty configuration, never a crash
 		if c.Struct == "empty-list" {
@@ -367,16 +389,15 @@ func parseCases() []Case {
 			seen[s] = true
 			for _, rest := range rests {
 				for _, form := range []string{"yaml", "json", "flag"} {
-					if pos == "listener" && form == "json" {
-						continue // listeners have no documented JSON form (only name~listen[~forward])
-					}
+					// (listeners have no documented JSON form, only name~listen[~forward]: a JSON object
+					// given to --listen is judged leniently, see evalParse)
 					out = append(out, Case{Pos: pos, Form: form, Scheme: s, Rest: rest})
 				}
 			}
 		}
 		for _, st := range []string{"missing-address", "nonstring-address", "empty-list"} {
 			for _, form := range []string{"yaml", "json"} {
-				if pos == "upstream" || (pos == "listener" && form == "json") {
+				if pos == "upstream" {
 					continue
 				}
 				out = append(out, Case{Pos: pos, Form: form, Scheme: "tcp", Rest: "://127.0.0.1:1", Struct: st})
